@@ -72,7 +72,7 @@ MUTANTS = [
      "Sigma_sum = jnp.einsum(\"abc,acd,aed->abe\", W, self.Sigma, W)", "Sigma_sum = jnp.einsum(\"abc,acd,ade->abe\", W, self.Sigma, W)"),
     ("m32-linear-sum-helper-extracted", "silent", ["C05"], P, "",
      "        Sigma_sum = jnp.einsum(\"abc,acd,aed->abe\", W, self.Sigma, W)", "        WS = jnp.einsum(\"abc,acd->abd\", W, self.Sigma)\n        Sigma_sum = jnp.einsum(\"abd,aed->abe\", WS, W)"),
-    ("m33-condition-on-sign", "firing", ["C06"], P, "GaussianPDF.condition_on",
+    ("m33-condition-on-sign", "firing", ["C06", "C11"], P, "GaussianPDF.condition_on",
      "        M_x = -jnp.einsum(\"abc,acd->abd\", Sigma_x, self.Lambda[:, dim_x][:, :, dim_y])\n        b_x = self.mu[:, dim_x] - jnp.einsum(\"abc,ac->ab\", M_x, self.mu[:, dim_y])\n        return conditional.ConditionalGaussianPDF(\n            M=M_x, b=b_x, Sigma=Sigma_x, Lambda=Lambda_x, ln_det_Sigma=-ln_det_Lambda_x\n        )\n\n    def condition_on_explicit",
      "        M_x = jnp.einsum(\"abc,acd->abd\", Sigma_x, self.Lambda[:, dim_x][:, :, dim_y])\n        b_x = self.mu[:, dim_x] - jnp.einsum(\"abc,ac->ab\", M_x, self.mu[:, dim_y])\n        return conditional.ConditionalGaussianPDF(\n            M=M_x, b=b_x, Sigma=Sigma_x, Lambda=Lambda_x, ln_det_Sigma=-ln_det_Lambda_x\n        )\n\n    def condition_on_explicit"),
     ("m34-condition-on-x-layout", "firing", ["C06", "C12"], C, "ConditionalGaussianPDF.condition_on_x",
@@ -90,18 +90,18 @@ MUTANTS = [
      "        MSigmaM = jnp.einsum(\"abcd,aed->abce\", MSigma_x, self.M)\n        Sigma_y = (0.5 * self.Sigma[:, None] + MSigmaM).reshape((R, self.Dy, self.Dy))\n        return pdf.GaussianPDF(Sigma=Sigma_y, mu=mu_y)"),
     ("m44-identity-marginal-forgets-prior", "firing", ["C08", "C15"], C, "ConditionalIdentityGaussianPDF.affine_marginal_transformation",
      "        Sigma_y = (self.Sigma[:, None] + p_x.Sigma[:, None]).reshape(", "        Sigma_y = (self.Sigma[:, None] + 0. * p_x.Sigma[:, None]).reshape("),
-    ("m45-posterior-offset-pairs-wrong-batch", "firing", ["C09"], C, "ConditionalGaussianPDF.affine_conditional_transformation",
+    ("m45-posterior-offset-pairs-wrong-batch", "firing", ["C09", "C11"], C, "ConditionalGaussianPDF.affine_conditional_transformation",
      "        b_x = -jnp.einsum(\"abcd,ad->abc\", M_x, self.b)", "        b_x = jnp.einsum(\"abcd,ad->abc\", M_x, self.b)"),
     ("m46-posterior-uses-prior-mean-not-nu", "firing", ["C09"], C, "ConditionalGaussianPDF.affine_conditional_transformation",
      "        b_x += jnp.einsum(\n            \"abcd,bd->abc\", Sigma_x.reshape((self.R, p_x.R, p_x.D, p_x.D)), p_x.nu\n        )",
      "        b_x += jnp.einsum(\n            \"abcd,bd->abc\", Sigma_x.reshape((self.R, p_x.R, p_x.D, p_x.D)), p_x.mu\n        )"),
     # ---------------- C10
-    ("m50-set-y-nu-missing-offset", "firing", ["C10"], C, "ConditionalGaussianPDF.set_y",
+    ("m50-set-y-nu-missing-offset", "firing", ["C10", "C11"], C, "ConditionalGaussianPDF.set_y",
      "            jnp.einsum(\"abc, acd -> abd\", self.Lambda, self.M),\n            y_minus_b,\n        )", "            jnp.einsum(\"abc, acd -> abd\", self.Lambda, self.M),\n            y,\n        )"),
     ("m51-set-y-identity-no-tile", "firing", ["C10"], C, "ConditionalIdentityGaussianPDF.set_y",
      "        y_Lambda_y = jnp.einsum(\n            \"ab, ab-> a\",\n            jnp.einsum(\"ab, abc -> ac\", y, self.Lambda),\n            y,\n        )\n        ln_beta_new = -0.5 * (\n            y_Lambda_y + self.Dx * jnp.log(2 * jnp.pi) + self.ln_det_Sigma\n        )\n        Lambda_new = self.Lambda\n        if self.R == 1:\n            Lambda_new = jnp.tile(Lambda_new, (y.shape[0], 1, 1))",
      "        y_Lambda_y = jnp.einsum(\n            \"ab, ab-> a\",\n            jnp.einsum(\"ab, abc -> ac\", y, self.Lambda),\n            y,\n        )\n        ln_beta_new = -0.5 * (\n            y_Lambda_y + self.Dx * jnp.log(2 * jnp.pi) + self.ln_det_Sigma\n        )\n        Lambda_new = self.Lambda"),
-    ("m52-set-y-neg-rewrite", "silent", ["C10"], C, "",
+    ("m52-set-y-neg-rewrite", "silent", ["C10", "C11"], C, "",
      "        y_minus_b = y - self.b\n        Lambda_new = jnp.einsum(", "        y_minus_b = -(self.b - y)\n        Lambda_new = jnp.einsum("),
     # ---------------- C12
     ("m60-slice-forgets-nu", "firing", ["C12"], F, "ConjugateFactor.slice",
